@@ -42,6 +42,24 @@ def load_known():
         return json.load(fh)
 
 
+class _Guard:
+    def __init__(self, chk, clause, construct, role):
+        self.chk, self.clause, self.construct, self.role = chk, clause, construct, role
+
+    def __enter__(self):
+        return self
+
+    def __exit__(self, et, ev, tb):
+        from .model import AnalysisError, AnchorMissing
+        from .state import PathLimit
+        if et is not None and issubclass(et, (AnalysisError, PathLimit)) and not issubclass(et, AnchorMissing):
+            clauses = self.clause if isinstance(self.clause, (list, tuple)) else [self.clause]
+            for c in clauses:
+                self.chk.undecided(c, 'undecided', self.construct, self.role, f'code shape not understood: {ev}')
+            return True
+        return False
+
+
 class Check:
     def __init__(self, prop_id, tier='quick'):
         self.prop_id = prop_id
@@ -60,10 +78,20 @@ class Check:
         self.floors[cid] = floor
 
     def ob(self, clause, rule, construct, role, ok, detail='', loc='', **facts):
-        o = Obligation(clause, rule, construct, role, bool(ok), detail, loc,
+        """ok: True (discharged) / False (definite violation) / None (undecided: the rule
+        does not recognise the code shape and gives no verdict)."""
+        o = Obligation(clause, rule, construct, role, None if ok is None else bool(ok), detail, loc,
                        {k: str(v) for k, v in facts.items()})
         self.obligations.append(o)
         return o
+
+    def undecided(self, clause, rule, construct, role, why, loc=''):
+        return self.ob(clause, rule, construct, role, None, why, loc)
+
+    def guard(self, clause, construct, role='rule applicable'):
+        """Context manager: an AnalysisError inside (code shape not understood) becomes an
+        undecided obligation of `clause`; a vanished anchor still aborts the run."""
+        return _Guard(self, clause, construct, role)
 
     def require(self, cond, msg):
         if not cond:
@@ -76,13 +104,20 @@ class Check:
         counts = {}
         for o in self.obligations:
             counts[o.clause] = counts.get(o.clause, 0) + 1
+        undec = {o.clause for o in self.obligations if o.ok is None}
         for cid, floor in self.floors.items():
-            if counts.get(cid, 0) < floor:
+            if counts.get(cid, 0) < floor and cid not in undec:
                 raise AnalysisError(f'{cid}: only {counts.get(cid, 0)} rule instances, floor is {floor} '
                                     f'(vacuous pass refused)')
         known = load_known()
         known_keys = {k['key']: k for k in known.get('known', []) if k.get('property') == self.prop_id}
-        failures = [o for o in self.obligations if not o.ok]
+        failures = [o for o in self.obligations if o.ok is False]
+        undecided = [o for o in self.obligations if o.ok is None]
+        seen_u = set()
+        for o in undecided:
+            if o.key not in seen_u:
+                seen_u.add(o.key)
+                print(f'UNDECIDED property={self.prop_id} {o.clause} {o.construct} [{o.role}] {o.detail[:300]}')
         new, listed = [], []
         seen = set()
         for o in failures:
@@ -113,14 +148,16 @@ class Check:
             d = per_clause.setdefault(o.clause, {'text': self.clause_text.get(o.clause, ''),
                                                  'instances': 0, 'discharged': 0})
             d['instances'] += 1
-            d['discharged'] += int(o.ok)
+            d['discharged'] += int(o.ok is True)
+            d['undecided'] = d.get('undecided', 0) + int(o.ok is None)
         distinct = len({o.key for o in obs})
         seen_cl, samples = set(), []
         for o in obs:                      # one sample obligation per clause, then the failing ones
             if o.clause not in seen_cl:
                 seen_cl.add(o.clause)
                 samples.append(o.as_dict())
-        samples += [o.as_dict() for o in obs if not o.ok][:6]
+        samples += [o.as_dict() for o in obs if o.ok is False][:6]
+        samples += [o.as_dict() for o in obs if o.ok is None][:6]
         from .interp import STATS
         from .model import Repo, repo_root
         analysed = {
@@ -146,7 +183,9 @@ class Check:
                                 + '; '.join(f'{c}: {t}' for c, t in self.clause_text.items())
                                 + '. NOT decided: ' + ('; '.join(self.not_decided) or 'n/a')),
                 'obligations': len(obs),
-                'discharged': sum(1 for o in obs if o.ok),
+                'discharged': sum(1 for o in obs if o.ok is True),
+                'undecided': sum(1 for o in obs if o.ok is None),
+                'undecided_keys': sorted({o.key for o in obs if o.ok is None})[:40],
                 'evaluations': len(obs),
                 'distinct_nontrivial': distinct,
                 'rule': 'one obligation per (clause, construct, role) rule instance found in the source; '
